@@ -194,15 +194,19 @@ inductive KTypes
   | cons (h : KType) (t : KTypes)
 end
 
+/-- a float value that the model can hold: the finite value `fin t` has `t ≠ 0` (zeros are `zero _`) -/
+def fwt : Flt → Bool
+  | .fin t => t != 0
+  | _ => true
+
 mutual
 /-- `v` is a value of static type `τ`; `shape tid` is the representation type of dynamic type `tid` -/
 def wt (shape : Nat → KType) : KType → KVal → Bool
   | .bool, .bool _ => true
   | .int, .int _ => true
   | .i64, .i64 _ _ => true
-  | .float, .float f => (match f with | .fin t => t ≠ 0 | _ => true)
-  | .complex, .complex re im =>
-    (match re with | .fin t => t ≠ 0 | _ => true) && (match im with | .fin t => t ≠ 0 | _ => true)
+  | .float, .float f => fwt f
+  | .complex, .complex re im => fwt re && fwt im
   | .string, .str _ => true
   | .ref, .ref _ => true
   | .iface, .ifaceNil => true
